@@ -134,10 +134,13 @@ ICUBridgeCollationCompareFunctorImpl::~ICUBridgeCollationCompareFunctorImpl()
 
     delete m_defaultCollator;
 
-    for_each(
+    if (m_collatorCache.empty() == false)
+    {
+        for_each(
             m_collatorCache.begin(),
             m_collatorCache.end(),
             CollationCacheStruct::CollatorDeleteFunctor(getMemoryManager()));
+    }
 }
 
 
